@@ -180,6 +180,11 @@ def element_targets(st):
                     out.append(('interface', dict(r, sub=st.name(k)), k))
     for s in top_services(st):
         out.append(('service', {'svc': st.name(s)}, s))
+    # services owned by a node or a component are reached through the same name-keyed view of the topology
+    allnames = [st.name(x) for x in st.of_class('NetworkService')]
+    for s in st.of_class('NetworkService'):
+        if st.owner_of_service(s) and allnames.count(st.name(s)) == 1:
+            out.append(('service', {'svc': st.name(s), 'owned': True}, s))
     for l in st.of_class('Link'):
         out.append(('link', {'link': st.name(l)}, l))
     return out
